@@ -115,6 +115,12 @@ Reset(k) == /\ AllowReset /\ sub[k] = "ready" /\ sstate[k] = "live"
             /\ killedOn' = [r \in Rpc |-> killedOn[r] \/ (rpc[r] = "on" /\ at[r] = k)]
             /\ UNCHANGED <<sstate, wedged, table, ver, pending, connMap, eps, updated, at, sawEmpty>>
 
+\* The channel goes idle (no call for gRPC's idle timeout): gRPC drops its resolver, balancer and transports; the next
+\* call makes it rebuild them, and the manual resolver has to hand the last published list to the new channel state.
+GoIdle == /\ AllowReset /\ Active = {} /\ \E k \in Id : sub[k] # "none"
+          /\ sub' = [k \in Id |-> "none"]
+          /\ UNCHANGED <<sstate, wedged, table, ver, pending, connMap, eps, updated, rpc, at, sawEmpty, killedOn>>
+
 \* calls are issued only after the first UpdateState (before it gRPC waits for the resolver)
 RpcStart(r) == /\ rpc[r] = "idle" /\ updated /\ rpc' = [rpc EXCEPT ![r] = "pick"]
                /\ sawEmpty' = [sawEmpty EXCEPT ![r] = (Live = {})]
@@ -132,7 +138,7 @@ RpcDone(r) == /\ rpc[r] = "on"
 
 Internal == (\E k \in Id : Unreg(k) \/ Connect(k) \/ Notice(k)) \/ (\E p \in pending : Apply(p))
             \/ (\E r \in Rpc : RpcFailFast(r) \/ \E k \in Id : RpcPick(r, k))
-Env == Add \/ (\E k \in Id : Kill(k) \/ Reset(k)) \/ (\E r \in Rpc : RpcStart(r) \/ RpcDone(r))
+Env == Add \/ GoIdle \/ (\E k \in Id : Kill(k) \/ Reset(k)) \/ (\E r \in Rpc : RpcStart(r) \/ RpcDone(r))
 Next == Internal \/ Env
 Spec == Init /\ [][Next]_vars
 
